@@ -7,6 +7,7 @@
 //! also printed as Gallina cases for the model of coq/C16.
 mod cf;
 mod gen;
+mod hostile;
 mod sbx;
 mod skim;
 
@@ -95,7 +96,9 @@ fn run_one_(kind: u8, bytes: &[u8], scratch: &Path) -> ((Res, Option<Res>), u64)
 			let (r, class) = res_of(guarded(|| duke::read_class(&mut Cursor::new(bytes))));
 			// the same bytes through the reader's other paths: all interests without a tree, no
 			// interests with every member declined, class declined; twice in a row on one cursor
-			let others: [(&str, Result<(), String>); 4] = [
+			let others: [(&str, Result<(), String>); 6] = [
+				("read_class_multi with a visitor without interest in fields and methods that declines every record component", guarded(|| { let mut c = Cursor::new(bytes); if let Ok(v) = duke::read_class_multi(&mut c, skim::NoMembers(0)) { let _ = duke::read_class_multi(&mut c, v); } })),
+				("read_class_multi with a visitor that declines the code of every method", guarded(|| { let mut c = Cursor::new(bytes); if let Ok(v) = duke::read_class_multi(&mut c, skim::DeclineCode(0)) { let _ = duke::read_class_multi(&mut c, v); } })),
 				("read_class_multi with the () visitor", guarded(|| { let _ = duke::read_class_multi(&mut Cursor::new(bytes), ()); })),
 				("read_class_multi with a visitor without interests", guarded(|| { let mut c = Cursor::new(bytes); if let Ok(v) = duke::read_class_multi(&mut c, skim::Skim(0)) { let _ = duke::read_class_multi(&mut c, v); } })),
 				("read_class_multi with a visitor that declines the class", guarded(|| { let mut c = Cursor::new(bytes); if let Ok(v) = duke::read_class_multi(&mut c, skim::Decline(0)) { let _ = duke::read_class_multi(&mut c, v); } })),
@@ -403,6 +406,7 @@ fn unescape_cases(r: &mut Report) {
 		fbh::report::crumb(&format!("property C16\nparser: tiny-v2 (in the harness process)\ninput: class comment cell {c:?}\ninput text:\n{text}"));
 		let got = guarded(|| quill::tiny_v2::read::<2, NsA>(text.as_bytes()).map(|m| m.classes.values().next().and_then(|c| c.javadoc.as_ref().map(|j| j.0.clone()))));
 		r.eval(&format!("unescape:{c}"), true);
+		if let Err(p) = &got { r.violation(format!("tiny-v2 parser: panic: {p} — class comment cell {c:?}"), format!("property C16\nparser: tiny-v2\nfailure: tiny-v2 parser: panic\ndetail: {p}\ninput: class comment cell {c:?}\ninput text:\n{text}")); }
 		let (tok, s) = match got { Err(_) => ("RPanic", String::new()), Ok(Err(_)) | Ok(Ok(None)) => ("RErr", String::new()), Ok(Ok(Some(s))) => ("ROk", s) };
 		r.case("case-unescape", format!("CUnesc {} {tok} {}", gnums(c.bytes().map(|x| x as u64)), gnums(s.bytes().map(|x| x as u64))));
 	}
@@ -436,26 +440,48 @@ pub fn run(ctx: &Ctx) -> anyhow::Result<Report> {
 	let mut rng = Rng::new(ctx.seed);
 	let mut bases_named = load_bases();
 	bases_named.extend(gen::assembled_bases());
+	// hostile strings: compact valid classes whose Utf8 constants carry unpaired surrogates, NUL, long runs
+	// of structural characters ... are bases as well, so every mutation below is crossed with them
+	let first_hostile = bases_named.len();
+	let compact: Vec<(String, Vec<u8>)> = {
+		let wanted = ["mod_module-info.class", "r17_Seal.class", "r17_Anno.class", "r17_Rec.class", "p17_AbsE.class", "r17_Inv.class", "r17_Big_In_Deep.class", "r8_Old.class", "simple_expected.class"];
+		let mut v: Vec<(String, Vec<u8>)> = bases_named.iter().filter(|(n, _)| wanted.iter().any(|w| n.ends_with(&format!("/{w}")))).map(|(n, b)| (n.rsplit('/').next().unwrap_or(n).to_string(), b.clone())).collect();
+		for (n, b) in gen::assembled_bases().into_iter().take(3) { v.push((n, b)); }
+		v
+	};
+	for (n, b) in &compact { bases_named.extend(hostile::variants(n, b)); }
+	for (n, b) in compact.iter().filter(|(n, _)| n == "r17_Anno.class" || n.starts_with("assembled: all instruction forms")) { bases_named.extend(hostile::giant_context_variants(n, b)); }
+	r.count_n("hostile_string_bases", (bases_named.len() - first_hostile) as u64);
 	let bases: Vec<Vec<u8>> = bases_named.iter().map(|x| x.1.clone()).collect();
 	let mut inputs: Vec<Input> = vec![];
 
 	// regression inputs (minimised crashers found earlier) always run first
 	for (name, kind, b) in load_crashers() { inputs.push(Input { kind, form: Form::Raw(b), stream: "regression", label: format!("corpus/C16/crashers/{name}"), shape: "", case: None }); }
 	for (i, (name, _)) in bases_named.iter().enumerate() {
-		inputs.push(Input { kind: K_CLASS, form: Form::Derived { base: i as u32, trunc: None, edits: vec![] }, stream: "class-valid", label: format!("unmodified {name}"), shape: "", case: None });
+		inputs.push(Input { kind: K_CLASS, form: Form::Derived { base: i as u32, trunc: None, edits: vec![] }, stream: if i < first_hostile { "class-valid" } else { "class-hostile-base" }, label: format!("unmodified {name}"), shape: "", case: None });
 	}
 	let mut sites_total = 0usize;
 	for (i, b) in bases.iter().enumerate() {
 		// work per base is bounded in bytes parsed (a 60 KB class costs ~30 ms per input)
 		let by_bytes = |mb: usize| ((mb << 20) / b.len().max(1)).max(50);
-		let budget = if ctx.thorough { by_bytes(100) } else { by_bytes(24).min(if b.len() > 4096 { 6000 } else { 4000 }) };
+		let hostile = i >= first_hostile;
+		let budget = if ctx.thorough { by_bytes(100).min(if hostile { 4000 } else { usize::MAX }) } else { by_bytes(24).min(if hostile { 450 } else if b.len() > 4096 { 6000 } else { 4000 }) };
 		sites_total += gen::field_mutations(i as u32, b, &mut rng, budget, &mut inputs);
-		let step = if b.len() <= 4096 { 1 } else if ctx.thorough { (b.len() / 2000).max(1) } else { (b.len() / 600).max(7) };
+		let step = if hostile && !ctx.thorough { (b.len() / 150).max(1) } else if b.len() <= 4096 { 1 } else if ctx.thorough { (b.len() / 2000).max(1) } else { (b.len() / 600).max(7) };
 		gen::truncations(i as u32, b, step, &mut inputs);
-		gen::random_edits(i as u32, b, &mut rng, if ctx.thorough { by_bytes(30).min(3000) } else { by_bytes(6).min(400) }, &mut inputs);
+		gen::random_edits(i as u32, b, &mut rng, if ctx.thorough { by_bytes(30).min(3000) } else { by_bytes(6).min(if hostile { 60 } else { 400 }) }, &mut inputs);
 	}
 	r.count_n("structural_sites_times_values_available", sites_total as u64);
+	for (n, b) in compact.iter().filter(|(n, _)| n == "r17_Anno.class" || n == "r17_Rec.class" || n.starts_with("assembled: all instruction forms") || n.starts_with("assembled: nested dynamic constants (invokedynamic)")) {
+		hostile::one_at_a_time(n, b, if ctx.thorough { 1000 } else { 24 }, &mut rng, &mut inputs);
+	}
+	hostile::structural_runs(&mut inputs);
+	hostile::descriptor_hostile_cells(&mut inputs);
+	hostile::mutf8_exhaustive(&mut inputs);
+	hostile::element_value_integers(&mut inputs);
+	hostile::text_structural_runs(&mut inputs);
 	gen::targeted(ctx.thorough, &mut inputs);
+	gen::exact_counts(&mut inputs);
 	gen::texts(&mut rng, ctx.thorough, &mut inputs);
 	case_inputs(&mut rng, ctx.thorough, &mut inputs);
 
@@ -465,7 +491,7 @@ pub fn run(ctx: &Ctx) -> anyhow::Result<Report> {
 	let _ = std::fs::remove_dir_all(&dir);
 	anyhow::ensure!(outs.len() == inputs.len(), "sandbox returned {} outcomes for {} inputs", outs.len(), inputs.len());
 
-	r.rule = format!("every input runs in a child process of the harness under ulimit (address space {} MiB, stack {} MiB, CPU {} s per batch, {} s CPU per input) with a counting allocator; outcome ok/err is fine, panic / signal / timeout / heap above 32 MiB + 512 x input size is a violation, and so is an accepted class in which one ldc / invokedynamic instruction carries more (nested) bootstrap arguments than the limit the reader documents (MAX_BOOTSTRAP_ARGUMENTS_EXPANDED as read from the source under test, 65536) (each re-run alone before it counts). Inputs: {} valid classes (javac 17 output for --release 8/17 incl. records, sealed, module-info, lambdas, switches, annotations, type annotations; /repo fixtures), every structural field found by an independent walker set to boundary values, truncation at every byte, random byte edits, hand-assembled hostile shapes (truncated instructions, switch ranges, stack-map offset sums, local-variable ranges, exception ranges, code_length, attribute_length up to 4 GiB, self-referential / deep / shared bootstrap arguments, one instruction with 1..255 top-level bootstrap arguments over shared DAGs of exact sizes (each far below or just under the budget, sums 65535 / 65536 / 65537 and far above, through invokedynamic and through ldc), self-referential pool entries, deeply nested element values (arrays, annotations, alternating), huge counts, duplicates, 65535-byte code, invokeinterface descriptors around the writer's u8 argument size), text inputs for tiny v2 / tiny diff / Enigma / nests (fixtures mutated, random lines, invalid UTF-8, huge indentation, very long lines, deep CLASS nesting; a backslash directly before 2-, 3-, 4-byte characters and combining marks, at the end of the line, doubled, before TAB, multi-byte characters next to every structural character, in every comment position / field; every string of length <= 3 over (backslash, n, e-acute, euro, U+10400, TAB, c) as comment cell) and descriptor strings; accepted classes go through write_class and the written bytes are read again. Whole-file correspondence: every text input of at most 4096 bytes (all targeted shapes and fixtures, the other streams sampled down to 5000 per quick run) is also a case CText for the model of the WHOLE parser (tiny v2 with 1 / 2 / 3 namespaces, tiny diff, Enigma, nests; coq/C16/ModelText.v, UTF-8 bytes), compared by exact outcome class ok / err / panic; element-value nesting is compared at 18 depths x 8 patterns against the three-function model whose increments are read from the source. Non-trivial: the parser accepted the input, or the input is a structured mutation of a valid file (reaches past the header). Distinct by input bytes.", LIMITS.as_kib / 1024, LIMITS.stack_kib / 1024, LIMITS.cpu_s, INPUT_CPU_LIMIT_MS / 1000, bases.len());
+	r.rule = format!("every input runs in a child process of the harness under ulimit (address space {} MiB, stack {} MiB, CPU {} s per batch, {} s CPU per input) with a counting allocator; outcome ok/err is fine, panic / signal / timeout / heap above 32 MiB + 512 x input size is a violation, and so is an accepted class in which one ldc / invokedynamic instruction carries more (nested) bootstrap arguments than the limit the reader documents (MAX_BOOTSTRAP_ARGUMENTS_EXPANDED as read from the source under test, 65536) (each re-run alone before it counts). Inputs: {} valid classes (javac 17 output for --release 8/17 incl. records, sealed, module-info, lambdas, switches, annotations, type annotations; /repo fixtures), every structural field found by an independent walker set to boundary values, truncation at every byte, random byte edits, hand-assembled hostile shapes (truncated instructions, switch ranges, stack-map offset sums, local-variable ranges, exception ranges, code_length, attribute_length up to 4 GiB, self-referential / deep / shared bootstrap arguments, one instruction with 1..255 top-level bootstrap arguments over shared DAGs of exact sizes (each far below or just under the budget, sums 65535 / 65536 / 65537 and far above, through invokedynamic and through ldc), self-referential pool entries, deeply nested element values (arrays, annotations, alternating), huge counts, duplicates, 65535-byte code, invokeinterface descriptors around the writer's u8 argument size, every count of the format at 255 / 256 / 257 / 65535 with all counted items present, element values of the integer kinds at the boundaries of the narrower types, every byte string of length <= 2 (and the 3-byte ones behind E0..EF) over 19 bytes where modified UTF-8 changes its mind as a class name), HOSTILE STRINGS: {} variants of compact valid classes in which every Utf8 that is not an attribute name carries an unpaired high / low surrogate, an embedded NUL, a leading 2- / 3- / 6-byte character, 700 extra bytes, 300 `[` or a run of 300 of one structural character, and whose class name / member names / member descriptors are filled up to 65535 bytes, are BASES too (every field mutation, truncation and byte edit is crossed with them), one Utf8 at a time replaced by / extended to twelve 65535-byte strings (runs of `[` `(` `;` `<` `a/`, surrogates, NUL ...) and made invalid for its role next to a surrogate; every accepted or refused class additionally goes through read_class_multi with the () visitor, a visitor without interests, one that declines the class, one without interest in fields and methods that declines record components, one that declines the code of every method, and twice into Vec<ClassFile>; text inputs for tiny v2 / tiny diff / Enigma / nests (fixtures mutated, random lines, invalid UTF-8, huge indentation, very long lines, deep CLASS nesting; every cell of the valid fixtures replaced one at a time by 37 hostile cells (names that start with multi-byte characters, empty, <init>, array names, separators, Unicode digits and line separators, 3000 letters); 100000-character runs of each of 17 structural characters as class name, member name and descriptor; a backslash directly before 2-, 3-, 4-byte characters and combining marks, at the end of the line, doubled, before TAB, multi-byte characters next to every structural character, in every comment position / field; every string of length <= 3 over (backslash, n, e-acute, euro, U+10400, TAB, c) as comment cell) and descriptor strings (random, runs of each structural character of length 255..300000 inside the frames of field / method / object / array descriptors, 34 short valid and invalid descriptors with a surrogate / NUL / 6-byte character at every position); accepted classes go through write_class and the written bytes are read again. Whole-file correspondence: every text input of at most 4096 bytes (all targeted shapes and fixtures, the other streams sampled down to 5000 per quick run) is also a case CText for the model of the WHOLE parser (tiny v2 with 1 / 2 / 3 namespaces, tiny diff, Enigma, nests; coq/C16/ModelText.v, UTF-8 bytes), compared by exact outcome class ok / err / panic; element-value nesting is compared at 18 depths x 8 patterns against the three-function model whose increments are read from the source. Non-trivial: the parser accepted the input, or the input is a structured mutation of a valid file (reaches past the header). Distinct by input bytes.", LIMITS.as_kib / 1024, LIMITS.stack_kib / 1024, LIMITS.cpu_s, INPUT_CPU_LIMIT_MS / 1000, first_hostile, bases.len() - first_hostile);
 
 	// group failures so that the report shows each distinct failure once, smallest input first
 	struct Fail { what: String, replay: String, len: usize, count: u64, known: Option<&'static str> }
@@ -482,13 +508,14 @@ pub fn run(ctx: &Ctx) -> anyhow::Result<Report> {
 		let kname = match inp.kind { K_MDESC | K_RDESC => "descriptor", k => KIND_NAMES[k as usize] };
 		let mem_bad = o.peak > mem_bound(bytes.len()) || o.big as u64 > mem_bound(bytes.len());
 		let accepted = o.res == Res::Ok;
-		let derived = matches!(inp.form, Form::Derived { .. }) || inp.stream.starts_with("class-targeted") || inp.stream.starts_with("case-");
+		let derived = matches!(inp.form, Form::Derived { .. }) || inp.stream.starts_with("class-") || inp.stream.starts_with("case-");
 		let canon = { use std::hash::{Hash, Hasher}; let mut h = std::collections::hash_map::DefaultHasher::new(); bytes.hash(&mut h); format!("{}:{}:{:x}", inp.kind, bytes.len(), h.finish()) };
 		r.eval(&canon, !bytes.is_empty() && (accepted || derived));
 		r.count(&format!("inputs:{}", inp.stream));
 		r.count_n(&format!("millis:{}", inp.stream), o.micros / 1000);
 		r.count(&format!("outcome:{kname}:{}", o.res.token()));
 		if let Some(w) = &o.write { r.count(&format!("outcome:class-writer:{}", w.token())); }
+		if inp.stream == "class-hostile-base" { r.count(&format!("hostile-base:{}", o.res.token())); if let Some(w) = &o.write { r.count(&format!("hostile-base-written:{}", w.token())); } }
 		if inp.stream == "class-valid" { r.count(&format!("valid-base:{}", o.res.token())); if o.res != Res::Ok { r.notes.push(format!("base not accepted by the reader: {}", inp.label)); } }
 		if o.micros > slowest.0 { slowest = (o.micros, inp.label.clone()); }
 		if o.micros > 200_000 { slow_list.push((o.micros, inp.label.clone())); }
